@@ -155,8 +155,7 @@ class Execution(object):
         # collected inside a managed thread: with line tracing on, the __del__ frames would become scheduling
         # points in the middle of whatever that thread was doing
         import gc
-        gc.collect()
-        gc.disable()
+        gc.disable()          # (collections happen between runs, in the unmanaged driver thread)
         try:
             self.sched.spawn("main", self._main)
             self.result = self.sched.run()
